@@ -1220,27 +1220,78 @@ func c09Edge(w *World, r *Result, rule string) {
 		recorded := false
 		keyOK := false
 		nameOK := false
+		// record sites: a map store in this function, or a call of a helper that stores (on all
+		// its paths) append(entry, <parameter …>) under a key taken from another parameter
+		type recSite struct {
+			at    ssa.Instruction
+			key   ssa.Value
+			elems []ssa.Value
+		}
+		var recs []recSite
 		for _, mu := range updates {
-			// value appended: append(list, name) where name = definedFunction.Name()
-			if c, ok := mu.Value.(*ssa.Call); ok {
-				if bi, ok := c.Call.Value.(*ssa.Builtin); ok && bi.Name() == "append" {
-					recorded = true
-					src := newSrcSet()
-					backward(c.Call.Args[1], src, map[ssa.Value]bool{})
-					for n := range src.calls {
-						if strings.HasSuffix(n, ".Name") {
-							nameOK = true
+			for _, ap := range appendsFeeding(mu.Value, 0, map[ssa.Value]bool{}) {
+				recs = append(recs, recSite{mu, mu.Key, []ssa.Value{ap.Call.Args[1]}})
+			}
+		}
+		for _, b := range fn.Blocks {
+			for _, ins := range b.Instrs {
+				call, ok := ins.(*ssa.Call)
+				if !ok {
+					continue
+				}
+				h := call.Call.StaticCallee()
+				if h == nil || h.Blocks == nil || !w.IsProduct(pkgOf(h)) || returnsNode(h) {
+					continue
+				}
+				for _, hb := range h.Blocks {
+					for _, hi := range hb.Instrs {
+						mu, ok := hi.(*ssa.MapUpdate)
+						if !ok || !dominatesReturns(h, hb) {
+							continue
+						}
+						keyArg := argForParam(h, mu.Key, call)
+						if keyArg == nil {
+							continue
+						}
+						for _, ap := range appendsFeeding(mu.Value, 0, map[ssa.Value]bool{}) {
+							var elems []ssa.Value
+							for _, e := range append(variadicElems(ap.Call.Args[1]), ap.Call.Args[1]) {
+								if a := argForParam(h, e, call); a != nil {
+									elems = append(elems, a)
+								} else if a := argForElemOfParam(h, e, call); a != nil {
+									elems = append(elems, a)
+								}
+							}
+							if len(elems) > 0 {
+								recs = append(recs, recSite{call, keyArg, elems})
+							}
 						}
 					}
-					ks := newSrcSet()
-					backward(mu.Key, ks, map[ssa.Value]bool{})
-					if ks.fields["currFunc"] || len(ks.fields) > 0 {
-						keyOK = true
-					}
-					if construct != nil && !reachesBefore(mu, construct) {
-						recorded = false
+				}
+			}
+		}
+		for _, rc := range recs {
+			okRec := construct == nil || reachesBefore(rc.at, construct)
+			if !okRec {
+				continue
+			}
+			recorded = true
+			for _, el := range rc.elems {
+				src := newSrcSet()
+				backward(el, src, map[ssa.Value]bool{})
+				for _, ve := range variadicElems(el) {
+					backward(ve, src, map[ssa.Value]bool{})
+				}
+				for n := range src.calls {
+					if strings.HasSuffix(n, ".Name") {
+						nameOK = true
 					}
 				}
+			}
+			ks := newSrcSet()
+			backward(rc.key, ks, map[ssa.Value]bool{})
+			if len(ks.fields) > 0 {
+				keyOK = true
 			}
 		}
 		pos := w.Pos(fn.Pos())
@@ -1375,6 +1426,76 @@ func c09Edge(w *World, r *Result, rule string) {
 }
 
 // reachesBefore: a is executed on every path before b (dominance, or same map key update in a join).
+// appendsFeeding: the append calls whose result reaches v (directly or through merges of a loop).
+func appendsFeeding(v ssa.Value, depth int, seen map[ssa.Value]bool) []*ssa.Call {
+	if v == nil || depth > 4 || seen[v] {
+		return nil
+	}
+	seen[v] = true
+	switch x := v.(type) {
+	case *ssa.Call:
+		if bi, ok := x.Call.Value.(*ssa.Builtin); ok && bi.Name() == "append" && len(x.Call.Args) == 2 {
+			return append([]*ssa.Call{x}, appendsFeeding(x.Call.Args[0], depth+1, seen)...)
+		}
+	case *ssa.Phi:
+		var out []*ssa.Call
+		for _, e := range x.Edges {
+			out = append(out, appendsFeeding(e, depth+1, seen)...)
+		}
+		return out
+	}
+	return nil
+}
+
+// argForParam: v is (a conversion of) a parameter of h; the argument the call passes for it.
+func argForParam(h *ssa.Function, v ssa.Value, call *ssa.Call) ssa.Value {
+	for {
+		switch x := v.(type) {
+		case *ssa.ChangeType:
+			v = x.X
+			continue
+		case *ssa.Convert:
+			v = x.X
+			continue
+		}
+		break
+	}
+	for i, p := range h.Params {
+		if ssa.Value(p) == v && i < len(call.Call.Args) {
+			return call.Call.Args[i]
+		}
+	}
+	return nil
+}
+
+// argForElemOfParam: v is an element read out of a list parameter of h (range / index); the
+// list the call passes for that parameter.
+func argForElemOfParam(h *ssa.Function, v ssa.Value, call *ssa.Call) ssa.Value {
+	if u, ok := v.(*ssa.UnOp); ok {
+		if ia, ok := u.X.(*ssa.IndexAddr); ok {
+			return argForParam(h, ia.X, call)
+		}
+	}
+	return nil
+}
+
+// dominatesReturns: blk lies on every path from the entry of fn to each of its returns.
+func dominatesReturns(fn *ssa.Function, blk *ssa.BasicBlock) bool {
+	n := 0
+	for _, b := range fn.Blocks {
+		if len(b.Instrs) == 0 {
+			continue
+		}
+		if _, ok := b.Instrs[len(b.Instrs)-1].(*ssa.Return); ok {
+			n++
+			if !blk.Dominates(b) {
+				return false
+			}
+		}
+	}
+	return n > 0
+}
+
 func reachesBefore(a, b ssa.Instruction) bool {
 	if a.Block() == b.Block() {
 		return instrIndex(a) < instrIndex(b)
@@ -2555,7 +2676,7 @@ func c09MergeComplete(w *World, r *Result, rule string) {
 								if callee2 == nil || len(callee2.Blocks) == 0 || pkgOf(callee2) != w.Pkgs["parser"].Types {
 									continue
 								}
-								srcIdx, dstIdx := -1, -1
+								srcIdx, dstIdx, ownerIdx := -1, -1, -1
 								for ai, a := range c2.Call.Args {
 									if u, ok := a.(*ssa.UnOp); ok {
 										if fa, ok := u.X.(*ssa.FieldAddr); ok && fa.Field == fi {
@@ -2566,17 +2687,36 @@ func c09MergeComplete(w *World, r *Result, rule string) {
 											}
 										}
 									}
+									// the destination handed over as its owner (method of the importing parser)
+									if a != anchor && types.Identical(a.Type(), fn.Params[0].Type()) {
+										ownerIdx = ai
+									}
 								}
-								if srcIdx < 0 || dstIdx < 0 || srcIdx >= len(callee2.Params) || dstIdx >= len(callee2.Params) {
+								if srcIdx < 0 || (dstIdx < 0 && ownerIdx < 0) || srcIdx >= len(callee2.Params) || dstIdx >= len(callee2.Params) || ownerIdx >= len(callee2.Params) {
 									continue
 								}
-								srcP, dstP := callee2.Params[srcIdx], callee2.Params[dstIdx]
+								srcP := callee2.Params[srcIdx]
+								var dstIs func(m ssa.Value) bool
+								if dstIdx >= 0 {
+									dstP := callee2.Params[dstIdx]
+									dstIs = func(m ssa.Value) bool { return m == ssa.Value(dstP) }
+								} else {
+									ownerP := callee2.Params[ownerIdx]
+									dstIs = func(m ssa.Value) bool {
+										if u, ok := m.(*ssa.UnOp); ok {
+											if fa, ok := u.X.(*ssa.FieldAddr); ok && fa.Field == fi && fa.X == ssa.Value(ownerP) {
+												return true
+											}
+										}
+										return false
+									}
+								}
 								for _, b3 := range callee2.Blocks {
 									for _, i3 := range b3.Instrs {
 										if x, ok := i3.(*ssa.Range); ok && x.X == srcP {
 											rng = x
 											loopFn = callee2
-											isDst = func(m ssa.Value) bool { return m == ssa.Value(dstP) }
+											isDst = dstIs
 										}
 									}
 								}
@@ -2625,6 +2765,28 @@ func c09MergeComplete(w *World, r *Result, rule string) {
 								// the entry's elements are walked (range over the slice: len(elem) in the inner header)
 								if bi, ok := x.Call.Value.(*ssa.Builtin); ok && bi.Name() == "len" && len(x.Call.Args) == 1 && x.Call.Args[0] == elemVal && elemVal != nil {
 									handled = true
+								}
+								// the key is handed to a helper that stores the destination's entry for it on all its paths
+								if h := x.Call.StaticCallee(); h != nil && h.Blocks != nil && w.IsProduct(pkgOf(h)) {
+									for _, hb := range h.Blocks {
+										for _, hi := range hb.Instrs {
+											mu, ok := hi.(*ssa.MapUpdate)
+											if !ok || !dominatesReturns(h, hb) || argForParam(h, mu.Key, x) != keyVal || keyVal == nil {
+												continue
+											}
+											// the map stored into: the destination passed as argument, or the same field of the owner passed as argument
+											if a := argForParam(h, mu.Map, x); a != nil && isDst(a) {
+												handled = true
+											}
+											if u, ok := mu.Map.(*ssa.UnOp); ok {
+												if fa, ok := u.X.(*ssa.FieldAddr); ok && fa.Field == fi {
+													if a := argForParam(h, fa.X, x); a != nil && a != anchor && types.Identical(a.Type(), fn.Params[0].Type()) {
+														handled = true
+													}
+												}
+											}
+										}
+									}
 								}
 							}
 						}
